@@ -369,3 +369,79 @@ vharness! {
         kani::cover!(o2 > 0 && s2 > 0, "shifted sub view");
     }
 }
+
+// -- c13_big_views: the same view arithmetic on contents beyond 64 KiB -------------------------------
+// @h c13_big_views | ByteRegion::{get_slice,cut,as_slice,stream,size}; ByteSlice::{get_slice,cut,stream}; RandomParser::read_slice for both; ByteStream::{read,size_left,offset}; Region::{cut_rel,cut_rel_asize} | source length up to 2^40, content (offset >= 1, size), sub range (offset, size up to 2^32), read size | the source is asked for exactly [content begin + offset, + size): no cap, no shift, whatever the size; the stream reads from the content's begin and never more than is left | a recording source of symbolic length (bytes are not materialised)
+static mut REC: (u64, u64, u8) = (0, 0, 0);
+
+#[derive(Debug)]
+struct RecSource {
+    len: u64,
+}
+impl Source for RecSource {
+    fn size(&self) -> Size {
+        Size::new(self.len)
+    }
+    fn read(&self, offset: Offset, buf: &mut [u8]) -> std::io::Result<usize> {
+        unsafe { REC = (offset.into_u64(), buf.len() as u64, 1); }
+        Ok(buf.len())
+    }
+    fn read_exact(&self, offset: Offset, buf: &mut [u8]) -> std::io::Result<()> {
+        unsafe { REC = (offset.into_u64(), buf.len() as u64, 2); }
+        Ok(())
+    }
+    fn get_slice(&self, region: ARegion, _block_check: BlockCheck) -> Result<std::borrow::Cow<[u8]>> {
+        unsafe { REC = (region.begin().into_u64(), region.size().into_u64(), 3); }
+        Ok(std::borrow::Cow::Owned(Vec::new()))
+    }
+    fn cut(self: Arc<Self>, region: Region, _block_check: BlockCheck, _in_memory: bool) -> Result<(Arc<dyn Source>, Region)> {
+        Ok((self, region))
+    }
+    fn display(&self) -> String {
+        String::new()
+    }
+}
+use std::sync::Arc;
+
+vharness! {
+    #[kani::unwind(4)]
+    fn c13_big_views() {
+        let len: u64 = kani::any();
+        kani::assume(len <= (1u64 << 40));
+        let reader = Reader::new(RecSource { len }, Size::new(len));
+        let (o1, s1) = sub(len);
+        kani::assume(o1 >= 1);
+        let slice1 = reader.get_byte_slice(Offset::new(o1), Size::new(s1));
+        let region1: ByteRegion = slice1.clone().into();
+        assert!(region1.size().into_u64() == s1 && slice1.size().into_u64() == s1);
+        let (o2, s2) = sub(s1);
+        kani::assume(s2 <= (1u64 << 32));
+        let want = (o1 + o2, s2, 3u8);
+        macro_rules! asked { ($what:expr) => { assert!(unsafe { REC } == want, $what); unsafe { REC = (0, 0, 0); } }; }
+        match region1.get_slice(Offset::new(o2), s2 as usize) { Ok(_) => { asked!("VERIF: ByteRegion::get_slice does not ask the source for the requested range"); } Err(e) => { forget(e); assert!(false); } }
+        match slice1.get_slice(Offset::new(o2), s2 as usize) { Ok(_) => { asked!("VERIF: ByteSlice::get_slice does not ask the source for the requested range"); } Err(e) => { forget(e); assert!(false); } }
+        match region1.read_slice(Offset::new(o2), s2 as usize) { Ok(_) => { asked!("VERIF: ByteRegion::read_slice does not ask the source for the requested range"); } Err(e) => { forget(e); assert!(false); } }
+        match slice1.read_slice(Offset::new(o2), s2 as usize) { Ok(_) => { asked!("VERIF: ByteSlice::read_slice does not ask the source for the requested range"); } Err(e) => { forget(e); assert!(false); } }
+        let cut = region1.cut(Offset::new(o2), Size::new(s2));
+        match cut.get_slice(Offset::zero(), s2 as usize) { Ok(_) => { asked!("VERIF: a sub-cut does not ask the source for its own range"); } Err(e) => { forget(e); assert!(false); } }
+        match region1.as_slice().cut(Offset::new(o2), Size::new(s2)).get_slice(Offset::zero(), s2 as usize) { Ok(_) => { asked!("VERIF: a sub-cut of a slice does not ask the source for its own range"); } Err(e) => { forget(e); assert!(false); } }
+        // streaming a big content
+        let mut stream = cut.stream();
+        assert!(stream.size() == s2 && stream.offset() == 0 && stream.size_left() == s2, "VERIF: fresh stream figures");
+        let n: usize = kani::any();
+        kani::assume(n <= 4);
+        let mut buf = [0u8; 4];
+        match stream.read(&mut buf[..n]) {
+            Ok(r) => {
+                let expect = if (n as u64) < s2 { n as u64 } else { s2 };
+                assert!(r as u64 == expect, "VERIF: stream read length");
+                assert!(unsafe { REC } == (o1 + o2, expect, 1), "VERIF: the stream does not read at the content's position");
+                assert!(stream.offset() == expect && stream.size_left() == s2 - expect && stream.size() == s2, "VERIF: stream figures after a read");
+            }
+            Err(e) => { forget(e); assert!(false); }
+        }
+        kani::cover!(s2 > 0xFFFF && o2 > 0, "sub range beyond 64 KiB");
+        kani::cover!(s2 == 0xFFFF, "exactly 65535 bytes");
+        kani::cover!(s1 > (1u64 << 33), "content beyond 8 GiB");
+    }
+}
